@@ -32,7 +32,7 @@ SINK = object()
 # driver op codes (coq/Model/D15.v)
 OPS = {"from_prefix": 1, "from_suffix": 2, "from_substring": 3, "from_subsequence": 4, "of_length": 5,
        "count_mod": 6, "nth_from_start": 7, "nth_from_end": 8, "universal_language": 9, "empty_language": 10}
-OP_KMP, OP_KMP_TABLE = 11, 12
+OP_KMP, OP_KMP_TABLE, OP_AC = 11, 12, 13
 PROMISED_MINIMAL = {"from_prefix", "from_suffix", "from_substring", "from_subsequence", "of_length",
                     "nth_from_start", "nth_from_end", "from_finite_language", "universal_language", "empty_language"}
 
@@ -68,7 +68,7 @@ class Case:
         if self.kind == "from_substring":
             return f(S, k["p"], contains=k["contains"], must_be_suffix=k["must_be_suffix"])
         if self.kind == "from_substrings":
-            return f(S, set(k["pats"]), contains=k["contains"], must_be_suffix=k["must_be_suffix"])
+            return f(S, self.pat_set(), contains=k["contains"], must_be_suffix=k["must_be_suffix"])
         if self.kind == "of_length":
             cs = None if k["cs"] is None else set(k["cs"])
             return f(S, min_length=k["lo"], max_length=k["hi"], symbols_to_count=cs)
@@ -81,6 +81,12 @@ class Case:
         if self.kind == "from_finite_language":
             return f(S, set(k["lang"]), as_partial=k["as_partial"])
         return f(S)   # universal_language / empty_language
+
+    def pat_set(self):
+        """The very set object handed to from_substrings; its iteration order is the schedule the mirror model gets."""
+        if not hasattr(self, "_pat_set"):
+            self._pat_set = set(self.kw["pats"])
+        return self._pat_set
 
     def pred(self, w):
         """Independent Python predicate (w is a string over the alphabet)."""
@@ -236,6 +242,11 @@ def spec_trie_dfa(lang, sy):
             sorted(ids[w] for w in lang), True]
 
 
+def canon_dfa_tree(t):
+    """Wire DFA with states, rows and final states in ascending order (as enc.enc_dfa writes the implementation's)."""
+    return [sorted(t[0]), t[1], sorted([q, sorted(row)] for q, row in t[2]), t[3], sorted(t[4])] + list(t[5:])
+
+
 def complemented(timpl):
     """Wire value of a (complete) DFA with the final states complemented."""
     t = list(timpl)
@@ -300,6 +311,14 @@ class Runner:
             if c.kind in OPS:
                 info["slots"]["ctor"] = len(reqs)
                 reqs.append((15, OPS[c.kind], enc.tree([c.params(sy), [] if timpl is None else [timpl]])))
+            if c.kind == "from_substrings":
+                # the mirror model of the Aho-Corasick construction (coq/Model/AhoCorasick.v, driver op 13), fed with
+                # the patterns in the iteration order of the set the implementation was given
+                info["slots"]["ac"] = len(reqs)
+                order = list(c.pat_set())
+                info["pat_order"] = order
+                ap = [list(range(sy.n)), [sy.word(p) for p in order], c.kw["contains"], c.kw["must_be_suffix"]]
+                reqs.append((15, OP_AC, enc.tree([ap, [] if timpl is None else [timpl]])))
             if c.kind in ("from_substring", "from_suffix"):
                 # the mirror model of the code itself (KMP table + transition loop, coq/Model/KMP.v, driver op 11)
                 info["slots"]["kmp"] = len(reqs)
@@ -422,6 +441,33 @@ class Runner:
                                    dict(rp, correspondence="C15/spec-automaton"), confirmed=False)
             else:
                 ctx.tally("all_words_equal_to_spec_automaton")
+            # ---- against the mirror model of the Aho-Corasick construction ----
+            if "ac" in ans:
+                mirror = enc.dec_res(ans["ac"][0])
+                if mirror[0] != "ok":
+                    self.violation(f"{fam}:ac-mirror-fails", f"{c.kind}{c.kw}: the Aho-Corasick mirror model fails with {mirror}",
+                                   dict(rp, correspondence="C15/ac-mirror", pattern_order=info["pat_order"]), confirmed=False)
+                else:
+                    ctx.tally("ac_mirror_compared")
+                    adiff = enc.dec_res(ans["ac"][1][1])
+                    if adiff[0] != "ok":
+                        self.violation(f"{fam}:comparator", f"{c.kind}: comparator failed {adiff}", rp, confirmed=False)
+                    elif adiff[1]:
+                        w = sy.unword(adiff[1][0])
+                        got, want = d.accepts_input(w), c.pred(w)
+                        if got != want:
+                            problems.append(("language", f"accepts_input({w!r}) = {got}, the specified predicate gives {want}"))
+                        else:
+                            self.violation(f"{fam}:ac-mirror-vs-impl-unconfirmed",
+                                           f"{c.kind}{c.kw}: comparator reports word {w!r} against the Aho-Corasick mirror model "
+                                           "but implementation and predicate agree on it (model problem)",
+                                           dict(rp, correspondence="C15/ac-mirror", pattern_order=info["pat_order"]), confirmed=False)
+                    elif info["canonical"] and enc.tree(canon_dfa_tree(mirror[1])) != enc.tree(info["timpl"]):
+                        # state labels are fixed by the insertion order, so the tables must coincide literally
+                        ctx.structural += 1
+                        ctx.tally("ac_mirror_table_differs_language_equal")
+                    elif info["canonical"]:
+                        ctx.tally("ac_mirror_table_identical")
         if not valid_impl:
             problems.append(("valid", "result does not satisfy the DFA validity rules"))
         # ---- (b) predicate level ----
